@@ -210,6 +210,18 @@ class TorchEval:
         torch = self.torch
         v = torch.zeros(self.n, dtype=torch.float64)
         I = torch.eye(self.n, dtype=torch.float64)
+        # exact support of the least fixed point: an entry is non-zero iff it is derivable in the Boolean semiring
+        # (weights are non-negative); linear-algebra round-off must not turn an exact zero into 1e-18
+        support = None
+        try:
+            raw = {n: (np.asarray(t.detach().numpy()) > 0) for n, t in self.w.items()}
+            be = NumEval(self.spec, BoolOps, raw_weights=raw)
+            cells = sum(max(1, int(np.prod(be.shape[x]))) for x in be.nts)
+            bx, rounds = be.kleene(cells + 3)
+            if rounds is not None:
+                support = torch.cat([torch.as_tensor(np.asarray(bx[x]).reshape(-1)) for x in self.nts]) if self.nts else None
+        except Exception:
+            support = None
         for it in range(max_newton):
             Fv = self.F(v)
             d = Fv - v
@@ -225,6 +237,8 @@ class TorchEval:
             if not torch.isfinite(step).all() or (step < -1e-12 * max(1.0, float(v.abs().max()))).any():
                 return {'ok': False, 'reason': 'newton step negative/non-finite (divergent or rho>=1)'}
             v = torch.maximum(v + step.clamp_min(0), Fv)
+            if support is not None:
+                v = torch.where(support, v, torch.zeros_like(v))
             if float(v.max()) > 1e12:
                 return {'ok': False, 'reason': 'diverging'}
         for _ in range(kleene_polish):
@@ -253,6 +267,8 @@ class TorchEval:
         w = {n: t.clone().requires_grad_(True) for n, t in self.w.items()}
         val = (self.F(vec_star.detach(), w) * g).sum()
         names = [n for n in leaves if n in w]
+        if not val.requires_grad or not names:
+            return {n: torch.zeros_like(w[n]) for n in names}
         grads = torch.autograd.grad(val, [w[n] for n in names], allow_unused=True)
         return {n: (gr if gr is not None else torch.zeros_like(w[n])) for n, gr in zip(names, grads)}
 
